@@ -103,7 +103,9 @@ def rules(model: Model, tier: str) -> List[RuleResult]:
         _fc = _ac.get_fncls(model, _cn)
         _ac.ac11_wrapper_returns(model, _fc, _R11)
         _ac.ac11_forward_provenance(model, _fc, _R11)
-    return [W, W2, P, Wp, T, S, B, Z, N, E, _R11]
+    from ..rules import substitution as _subst
+    _sub = _subst.rules(model, PROP, tier)
+    return [W, W2, P, Wp, T, S, B, Z, N, E, _R11, *_sub]
 
 
 # ------------------------------------------------------------------------------------------------
